@@ -91,10 +91,28 @@ def check_stream(case, stats):
             except ValueError as e:
                 raise Violation(case, "generate_events printed a line that is not JSON: %s" % e)
             per_source = None
+        elif case.get("api") == "round-robin":
+            # all generators are created first and advanced alternately (zip / merge style consumption); without pickles each
+            # source still owns a contiguous id range, so the usual expectation applies
+            opts = (opts[0], opts[1], False)
+            ev = gh.GherkinEvents(gh.GherkinEvents.Options(*opts))
+            gens = [ev.enum(se) for se in gh.SourceEvents(paths).enum()]
+            per_source = [[] for _ in gens]
+            live = list(range(len(gens)))
+            while live:
+                for i in list(live):
+                    try:
+                        per_source[i].append(next(gens[i]))
+                    except StopIteration:
+                        live.remove(i)
+            flat = [e for es in per_source for e in es]
         else:
             ev = gh.GherkinEvents(gh.GherkinEvents.Options(*opts))
             per_source = []
             for se in gh.SourceEvents(paths).enum():
+                if case.get("api") == "reordered-keys":
+                    # the same source envelope with its keys in another order (e.g. after a sort-keys JSON round trip)
+                    se = {"source": {k: se["source"][k] for k in ("mediaType", "data", "uri")}}
                 per_source.append(list(ev.enum(se)))
             flat = [e for es in per_source for e in es]
         for e in flat:
@@ -164,7 +182,7 @@ def g_stream(s):
     dup = s.int(4) == 0
     if dup and srcs:
         srcs.insert(s.int(len(srcs) + 1), srcs[s.int(len(srcs))])
-    return {"sub": "stream", "sources": srcs, "opts": [bool(s.int(2)), bool(s.int(2)), bool(s.int(2))], "api": "main" if s.int(6) == 0 else "enum",
+    return {"sub": "stream", "sources": srcs, "opts": [bool(s.int(2)), bool(s.int(2)), bool(s.int(2))], "api": s.choice(["main", "enum", "enum", "enum", "round-robin", "reordered-keys"]),
             "same_path_for_equal_sources": dup}
 
 
@@ -198,6 +216,9 @@ def unit_corpus(a):
     for big in large_sources():
         cases.append({"sub": "stream", "sources": [big, "Feature: after\n"], "opts": [True, True, True], "api": "enum"})
         cases.append({"sub": "stream", "sources": ["Feature: before\n Scenario: s\n  Given x\n", big], "opts": [False, True, False], "api": "main"})
+    for i in range(0, len(texts), 5):
+        cases.append({"sub": "stream", "sources": [t for _, t in texts[i:i + 3]], "opts": [True, True, True], "api": "round-robin"})
+        cases.append({"sub": "stream", "sources": [t for _, t in texts[i:i + 3]], "opts": [True, True, True], "api": "reordered-keys"})
     same = texts[3][1]
     cases.append({"sub": "stream", "sources": [same, texts[4][1], same, same], "opts": [True, True, True], "api": "enum", "same_path_for_equal_sources": True})
     cases.append({"sub": "stream", "sources": [same, same], "opts": [False, False, True], "api": "main", "same_path_for_equal_sources": True})
